@@ -21,41 +21,41 @@ func phasesFor(prop string) []phaseDef {
 	switch prop {
 	case "C01":
 		return []phaseDef{
-			{"stream", "plain", 16000, 600000, func(r *Rng, i int) []*Scenario { return genStream(r, "C01", "stream", false, 0.30, 0.08) }},
-			{"stream-knob", "knob", 16000, 600000, func(r *Rng, i int) []*Scenario { return genStream(r, "C01", "stream-knob", true, 0.30, 0.08) }},
-			{"memory", "plain", 8000, 300000, func(r *Rng, i int) []*Scenario {
+			{"stream", "plain", 120000, 600000, func(r *Rng, i int) []*Scenario { return genStream(r, "C01", "stream", false, 0.30, 0.08) }},
+			{"stream-knob", "knob", 120000, 600000, func(r *Rng, i int) []*Scenario { return genStream(r, "C01", "stream-knob", true, 0.30, 0.08) }},
+			{"memory", "plain", 60000, 300000, func(r *Rng, i int) []*Scenario {
 				return []*Scenario{{Property: "C01", Phase: "memory", Doc: genDoc(r, docMax(r))}}
 			}},
-			{"trunc-enum", "plain", 60, 6000, func(r *Rng, i int) []*Scenario { return genEnumK(r, "C01", "trunc-enum", "early-eof") }},
+			{"trunc-enum", "plain", 400, 6000, func(r *Rng, i int) []*Scenario { return genEnumK(r, "C01", "trunc-enum", "early-eof") }},
 		}
 	case "C08":
 		return []phaseDef{
-			{"A", "plain", 15000, 600000, func(r *Rng, i int) []*Scenario { return genStream(r, "C08", "A", false, 0, 0) }},
-			{"A-knob", "knob", 15000, 600000, func(r *Rng, i int) []*Scenario { return genStream(r, "C08", "A-knob", true, 0, 0) }},
-			{"B", "plain", 15000, 600000, func(r *Rng, i int) []*Scenario { return genStream(r, "C08", "B", false, 0.25, 0.75) }},
-			{"B-knob", "knob", 15000, 600000, func(r *Rng, i int) []*Scenario { return genStream(r, "C08", "B-knob", true, 0.25, 0.75) }},
-			{"B-enum", "knob", 60, 8000, func(r *Rng, i int) []*Scenario { return genEnumK(r, "C08", "B-enum", "error") }},
+			{"A", "plain", 100000, 600000, func(r *Rng, i int) []*Scenario { return genStream(r, "C08", "A", false, 0, 0) }},
+			{"A-knob", "knob", 100000, 600000, func(r *Rng, i int) []*Scenario { return genStream(r, "C08", "A-knob", true, 0, 0) }},
+			{"B", "plain", 100000, 600000, func(r *Rng, i int) []*Scenario { return genStream(r, "C08", "B", false, 0.25, 0.75) }},
+			{"B-knob", "knob", 100000, 600000, func(r *Rng, i int) []*Scenario { return genStream(r, "C08", "B-knob", true, 0.25, 0.75) }},
+			{"B-enum", "knob", 400, 8000, func(r *Rng, i int) []*Scenario { return genEnumK(r, "C08", "B-enum", "error") }},
 		}
 	case "C04":
 		return []phaseDef{
-			{"healthy", "steps", 9000, 400000, func(r *Rng, i int) []*Scenario { return genTotality(r, "healthy") }},
-			{"faulty", "steps", 6000, 300000, func(r *Rng, i int) []*Scenario { return genTotality(r, "faulty") }},
-			{"limit", "steps", 3000, 100000, func(r *Rng, i int) []*Scenario { return genTotality(r, "limit") }},
-			{"cut-enum", "steps", 40, 3000, func(r *Rng, i int) []*Scenario { return genTotalityEnum(r) }},
+			{"healthy", "steps", 60000, 400000, func(r *Rng, i int) []*Scenario { return genTotality(r, "healthy") }},
+			{"faulty", "steps", 40000, 300000, func(r *Rng, i int) []*Scenario { return genTotality(r, "faulty") }},
+			{"limit", "steps", 20000, 100000, func(r *Rng, i int) []*Scenario { return genTotality(r, "limit") }},
+			{"cut-enum", "steps", 200, 3000, func(r *Rng, i int) []*Scenario { return genTotalityEnum(r) }},
 		}
 	case "C18":
 		return []phaseDef{
-			{"tapes", "plain", 100000, 4000000, func(r *Rng, i int) []*Scenario { return genWalk(r) }},
-			{"single-enum", "plain", 300, 20000, func(r *Rng, i int) []*Scenario { return genWalkEnum(r) }},
+			{"tapes", "plain", 400000, 4000000, func(r *Rng, i int) []*Scenario { return genWalk(r) }},
+			{"single-enum", "plain", 1500, 20000, func(r *Rng, i int) []*Scenario { return genWalkEnum(r) }},
 		}
 	case "C19":
 		return []phaseDef{
-			{"race", "race", 8000, 250000, func(r *Rng, i int) []*Scenario { return genSched(r, "race") }},
+			{"race", "race", 20000, 250000, func(r *Rng, i int) []*Scenario { return genSched(r, "race") }},
 			{"dense", "dense", 0, 60000, func(r *Rng, i int) []*Scenario { return genSched(r, "dense") }},
 		}
 	case "C20":
 		return []phaseDef{
-			{"writer-enum", "plain", 3000, 300000, func(r *Rng, i int) []*Scenario { return genSink(r) }},
+			{"writer-enum", "plain", 3000, 50000, func(r *Rng, i int) []*Scenario { return genSink(r) }},
 		}
 	}
 	return nil
@@ -343,6 +343,7 @@ func evaluate(s *Scenario, st *runStats) (fail *Failure) {
 		}()
 	}
 	st.Evaluations++
+	st.Outcome = 0
 	nontrivial := false
 	applyKnobs(s.Knobs)
 	defer applyKnobs(nil)
@@ -371,6 +372,14 @@ func evaluate(s *Scenario, st *runStats) (fail *Failure) {
 		})
 		if obs != nil {
 			nontrivial = streamStats(s, obs, st)
+			h := uint64(len(obs.Blocks))<<32 ^ uint64(obs.NextCalls)
+			for _, e := range obs.Reader.Hist {
+				h = mix64(h ^ uint64(e.Seq)<<40 ^ uint64(e.LenP)<<20 ^ uint64(e.N) ^ hashString(e.Err))
+			}
+			for _, b := range obs.Blocks {
+				h = mix64(h ^ uint64(b.StartOffset)<<32 ^ uint64(b.EndOffset) ^ uint64(b.StartLine)<<48)
+			}
+			st.Outcome = h
 		}
 	case "C04":
 		f, obs := checkC04(s)
@@ -379,6 +388,7 @@ func evaluate(s *Scenario, st *runStats) (fail *Failure) {
 		st.Logical["writes"] += int64(obs.Writes)
 		st.Logical["callbacks"] += int64(obs.Callbacks)
 		st.Logical["yield_steps"] += int64(obs.Steps)
+		st.Outcome = mix64(obs.Steps ^ uint64(obs.Reads)<<40 ^ uint64(obs.Writes)<<20 ^ uint64(obs.Callbacks))
 		if obs.MaxRatio > st.MaxStepRatio {
 			st.MaxStepRatio = obs.MaxRatio
 		}
@@ -403,6 +413,7 @@ func evaluate(s *Scenario, st *runStats) (fail *Failure) {
 		})
 		if obs != nil {
 			st.Logical["callbacks"] += int64(obs.Callbacks)
+			st.Outcome = hashString(histDigest(obs.Hist))
 			st.Faults["prune"] += obs.Prunes
 			st.Faults["abort"] += obs.Aborts
 			st.Faults["reentrant_walk"] += obs.NestedWalks
@@ -432,6 +443,16 @@ func evaluate(s *Scenario, st *runStats) (fail *Failure) {
 			st.Probes["race_detector_active"]++
 		}
 		nontrivial = obs.Switches > 0
+		{
+			h := uint64(obs.Switches)
+			for _, t := range obs.Triples {
+				h = mix64(h ^ uint64(t[0])<<40 ^ uint64(t[1])<<16 ^ uint64(t[2]))
+			}
+			for _, x := range obs.TaskSteps {
+				h = mix64(h ^ x)
+			}
+			st.Outcome = h ^ hashString(obs.RaceReport)
+		}
 		if nontrivial {
 			h := uint64(0)
 			for _, t := range obs.Triples {
@@ -451,6 +472,7 @@ func evaluate(s *Scenario, st *runStats) (fail *Failure) {
 				st.Skipped++
 			}
 			st.Logical["writes"] += int64(obs.Writes)
+			st.Outcome = uint64(obs.Writes)<<32 ^ uint64(obs.HealthyLen)
 			if obs.Fired {
 				if s.Writer.FailAt >= 0 {
 					st.Faults["write_failure_at_index"]++
